@@ -17,14 +17,13 @@ What is a PARAMETER of the model and not modelled here:
   aberration) as a function of the epoch's JDE.  The R theorems hold for an arbitrary function; the
   F tie feeds the values the implementation saw (see `sunLonOfTable`).
 * `mk : Num → PyRes Num` — the constructor `Epoch(jde)` of a float, which stores `jde`, reads the
-  calendar date back (`get_full_date`) and recomputes the JDE from it.  F: `mkEpoch` below (through
-  EpochCore's `get_date`/`compute_jde`); R theorems: arbitrary, or the identity where stated.
+  calendar date back (`get_full_date`) and recomputes the JDE from it.  The model's own constructor
+  is `mkEpoch` below (through EpochCore's `get_date`/`compute_jde`, both instantiations); over ℝ it
+  is the identity on `jde ≥ 0` (Refine/EpochCoreR.lean: `mkEpoch_exact`), so the season theorems are
+  stated for an arbitrary `mk` and then for `mkEpoch` itself.
 * the values of `Epoch.leap_seconds(year, month)`, of α / Δψ / ε in `equation_of_time`: inputs.
 -/
-import Pymeeus.Pre@K@
---@only F
-import Pymeeus.Gen.F.EpochCore
---@end
+import Pymeeus.Gen.@K@.EpochCore
 namespace Pymeeus.Gen@K@
 namespace SunEvents
 open Pymeeus Pymeeus.P@K@
@@ -78,6 +77,23 @@ def round0 (x : Num) : Num :=
   let r := ofInt (PF.pround x)
   if r == 0.0 && (x.toBits >>> 63 == 1) then -0.0 else r
 
+/-- The function "the implementation's solar longitude at the epochs it asked for": `jdes[i] ↦
+    lons[i]` (compared bit for bit), NaN anywhere else. -/
+def sunLonOfTable (jdes lons : List Num) (x : Num) : Num :=
+  match (jdes.zip lons).find? (fun p => p.1.toBits == x.toBits) with
+  | some p => p.2
+  | none => 0.0 / 0.0
+--@end
+--@only R
+/-- `round(x)`: nearest int, ties to even. -/
+def roundHE (x : Num) : Int :=
+  let f := pfloor x
+  let r := x - ofInt f
+  if plt r (1 / 2) then f else if plt (1 / 2) r then f + 1 else if f % 2 = 0 then f else f + 1
+/-- `round(x, 0)`: the same as a float. -/
+def round0 (x : Num) : Num := ofInt (roundHE x)
+--@end
+
 /-- `Epoch(jde)` for a float (Epoch.set, one numeric argument): `self._jde = jde`, then
     `get_full_date()` and `_compute_jde(year, month, day, utc2tt=False)`. -/
 def mkEpoch (jde : Num) : PyRes Num :=
@@ -95,23 +111,6 @@ def mkEpoch (jde : Num) : PyRes Num :=
     -- day += hours / DAY2HOURS + minutes / DAY2MIN + sec / DAY2SEC
     let day := ofInt di + (ofInt h / 24.0 + ofInt mi / 1440.0 + s / 86400.0)
     .ok (compute_jde y m day)
-
-/-- The function "the implementation's solar longitude at the epochs it asked for": `jdes[i] ↦
-    lons[i]` (compared bit for bit), NaN anywhere else. -/
-def sunLonOfTable (jdes lons : List Num) (x : Num) : Num :=
-  match (jdes.zip lons).find? (fun p => p.1.toBits == x.toBits) with
-  | some p => p.2
-  | none => 0.0 / 0.0
---@end
---@only R
-/-- `round(x)`: nearest int, ties to even. -/
-def roundHE (x : Num) : Int :=
-  let f := pfloor x
-  let r := x - ofInt f
-  if plt r (1 / 2) then f else if plt (1 / 2) r then f + 1 else if f % 2 = 0 then f else f + 1
-/-- `round(x, 0)`: the same as a float. -/
-def round0 (x : Num) : Num := ofInt (roundHE x)
---@end
 
 /-- `x - 360.0 * round(x / 360.0)` on floats (`round` with one argument: an int, ties to even):
     the reduction to −180 … +180 used by `equation_of_time`, `interpol` and the transit hour angle. -/
@@ -273,7 +272,6 @@ def rise_set_core (ejde : Num) (leap : Int) (lat lon altitude : Num) : PyRes (Nu
 /-- The two returned epochs before construction: `jtran - (omega / 360.0)`, `jtran + (omega / 360.0)`. -/
 def rise_set_args (r : Num × Num × Num) : Num × Num := (r.1 - (r.2.1 / 360.0), r.1 + (r.2.1 / 360.0))
 
---@only F
 /-- `Epoch.rise_set(latitude, longitude, altitude)` from the stored JDE: `year, month, day =
     self.get_date(); e = Epoch(year, month, iint(day))` mirrored with EpochCore's `get_date` and
     `epoch_ymd`; `leap` is the implementation's `Epoch.leap_seconds(year, month)`.
@@ -296,7 +294,6 @@ def rise_set (jde : Num) (leap : Int) (lat lon altitude : Num) : PyRes (Num × N
           match mkEpoch (rise_set_args r).2 with
           | .error e => .error e
           | .ok js => .ok (jr, js)
---@end
 
 /-! ## times_rise_transit_set (Coordinates.py:1416) -/
 
